@@ -155,8 +155,8 @@ def shard(ctx):
     def body(case):
         iso3, options = case
         run_case(ctx, iso3, options, "c05_%d_%d" % (ctx.shard, ctx.evaluations))
-    drive(ctx, strategy(), body, 110 if thorough else 7, shrink=False, tag="runs")
-    model.run_fixed(ctx, model.extreme_cases(), lambda iso, o, k: (ctx.count(), run_case(ctx, iso, o, "c05x_%s" % iso)))
+    drive(ctx, strategy(), body, 110 if thorough else 20, shrink=False, tag="runs")
+    model.run_fixed(ctx, model.extreme_cases_wide(rotate=True), lambda iso, o, k: (ctx.count(), run_case(ctx, iso, o, "c05x_%s" % iso)))
     # the zero boundary of the per-head columns: rows whose pig / chicken carcass weight is 0, given a herd of that species to slaughter
     t = model.country_table()
     zero_rows = [(iso, "pig_head") for iso in t[t["kg_meat_per_pig"] == 0]["iso3"].tolist()[:3]] + \
